@@ -419,12 +419,23 @@ func checkRecvLoop(r *R, fn *ssa.Function, fullC, lessC int64) {
 	r.Check(unparsed == nil, where, "F6 every read is followed by a parse", appendCall.Pos(), "no path from the append back to Read that skips ParsePackage", "bytes can be appended and the loop can go back to Read without parsing them: complete packets wait in the buffer until some later read happens to be short (for ever, when the peer stops after a burst that fills the read buffer exactly), and an illegal length prefix is not rejected")
 
 	// F2: fresh copy of cur[:L], remainder cur[L:], same L, under status == Full
+	var statusSets map[*ssa.BasicBlock]iset
 	underFull := func(b *ssa.BasicBlock) bool {
 		for _, f := range facts(b) {
 			if c, ok := normFact(f); ok && c.Op == token.EQL && c.X == status {
 				if k, ok := constInt(c.Y); ok && k == fullC {
 					return true
 				}
+			}
+		}
+		// the other statuses were sent elsewhere one by one (status != Less && status != Full -> error;
+		// status == Less -> break): the values status can still have here
+		if status != nil {
+			if statusSets == nil {
+				statusSets = valueSets(fn, status, nil)
+			}
+			if s, ok := statusSets[b]; ok && s.equal(rng(fullC, fullC)) {
+				return true
 			}
 		}
 		return false
